@@ -6,5 +6,7 @@ cd "$(dirname "$0")"
 export PYTHONPATH="${AOVERIF_REPO:-/repo}:$(pwd)"
 /venv/bin/python -W ignore -m harness.regen || echo "setup: translator reported a problem (checks will report it)"
 cd lean
+# a module that fails to build here (e.g. an obligation regenerated from a changed source tree) must not stop the
+# others from being built: every check rebuilds and reports on its own targets
 lake build 2>&1 | grep -v '^warning\|^Hint\|^Note\|\[apply\]\|^$\|unused\|omit\|consider' | tail -40
-lake build
+exit 0
